@@ -450,6 +450,21 @@ class FnTranslator:
             self.types[a.vararg.arg] = "List"
             ptypes.append("List")
             sig.append(f"({a.vararg.arg} : List Q)")
+        if fs.get("extract_assign"):
+            # translate only the right-hand side of the LAST assignment to the given local name, as a function of the declared parameters
+            var = fs["extract_assign"]
+            rhs = None
+            for node in ast.walk(self.fn):
+                if isinstance(node, ast.Assign) and len(node.targets) == 1 and isinstance(node.targets[0], ast.Name) and node.targets[0].id == var:
+                    rhs = node.value
+            if rhs is None:
+                raise Untranslatable(f"no assignment to {var} in {self.qual}")
+            sig = [f"({p_} : {'Py.' + t_ if t_ in ('Config', 'PNG') else t_})" for p_, t_ in fs.get("params", {}).items()]
+            body = ["  return " + self.E(rhs)]
+            lean = fs["lean"]
+            txt = f"/-- translated from `{self.mod.path.name}` `{self.qual}`: the last assignment to `{var}` -/\n"
+            txt += f"def {lean} {' '.join(sig)} : Py.M {fs['ret']} := do\n" + "\n".join(body) + "\n"
+            return txt, {"lean": lean, "param_types": list(fs.get("params", {}).values()), "required": len(fs.get("params", {}))}
         if fs.get("style") == "imperative":
             counts = {}
             for node in ast.walk(self.fn):
@@ -527,6 +542,7 @@ SPECS = {
     }}),
     "TrWriteFont": ("src/nanoemoji/write_font.py", {"functions": {
         "_quantize_bounding_rect": {"lean": "quantize_bounding_rect", "ret": "(Q × Q × Q × Q)"},
+        "_colr_ufo": {"lean": "default_clipbox_quantization", "ret": "Q", "extract_assign": "quantization", "params": {"config": "Config"}},
     }}),
     "TrBitmap": ("src/nanoemoji/bitmap_tables.py", {"functions": {
         "_nudge_into_range": {"lean": "nudge_into_range", "ret": "Q", "params": {"arange": "Range"}},
